@@ -439,3 +439,11 @@ func TestKnownFindings(t *testing.T) {
 		fmt.Println("KNOWN-FINDING: property=C05 key-delimiter-ambiguity: the canonical key does not escape its delimiters ',' '=' '+': Tagged({a:\"1,b=2\"}) and Tagged({a:\"1\",b:\"2\"}) are one scope and KeyForStringMap gives both the key \"a=1,b=2\"")
 	}
 }
+
+func FuzzKeyFn(f *testing.F) {
+	pbt.Fuzz(f, pbt.Prop[KeyCase]{ID: "C05", Name: "fuzz-keyfn", Rule: "native coverage-guided fuzzing (go test -fuzz) of the key-function laws: the fuzzer's bytes are rapid's random stream", Gen: genKey, Run: runKey})
+}
+
+func FuzzScopes(f *testing.F) {
+	pbt.Fuzz(f, pbt.Prop[Case]{ID: "C05", Name: "fuzz-scopes", Rule: "native coverage-guided fuzzing (go test -fuzz) of derivation pairs: the fuzzer's bytes are rapid's random stream", Gen: gen, Run: run})
+}
